@@ -146,13 +146,18 @@ class InputFileRoundTrip(Contract):
     symbolic = False
     has_native = True
     props = ("C14",)
-    bounded_scope = "template forms (bool, integer, float incl. +-inf, string, choice, object, data, data-or-value, optional/disabled variants; in a scenario of their own: multi-choice, file, group, drillhole-group data with the template defaults and optional variants, range with and without complement) x value corpus x {default options, update_enabled=False}; written, read back, values and enabled states compared; promote/demote of uids on a real workspace; file names with dots in the stem; values assigned to members of optional groups (switch optional or not, before or after its members); values changed through set_data_value or by assigning the data dictionary back (with and without validation; data-or-value forms switched between number and channel)"
+    bounded_scope = "template forms (bool, integer, float incl. +-inf, string, choice, object, data, data-or-value, optional/disabled variants; in a scenario of their own: multi-choice, file, group, drillhole-group data with the template defaults and optional variants, range with and without complement; an enabled optional group with an opted-out optional member, flags compared before and after the values are read) x value corpus x {default options, update_enabled=False}; written, read back, values and enabled states compared; promote/demote of uids on a real workspace; file names with dots in the stem; values assigned to members of optional groups (switch optional or not, before or after its members); values changed through set_data_value or by assigning the data dictionary back (with and without validation; data-or-value forms switched between number and channel)"
 
     def native_cases(self, tier, rng):
         for opts in ({}, {"update_enabled": False}):
             for touch_data in (False, True):
                 for name in ("t.ui.json", "inversion_v1.2.ui.json"):
                     yield {"options": opts, "touch_data": touch_data, "name": name}
+        # an enabled optional group one of whose members is itself optional and opted out: every flag reads back as written
+        for opts in ({}, {"update_enabled": False}):
+            for switch_first in (True, False):
+                for touch in ("data-then-flags", "flags-only"):
+                    yield {"kind": "opted-out-member", "options": opts, "switch_first": switch_first, "touch": touch, "name": "optout.ui.json"}
         # the remaining template forms: multi-choice, file, group, drillhole-group data (template defaults and optional variants), range
         for opts in ({}, {"update_enabled": False}):
             for validate in (True, False):
@@ -360,6 +365,54 @@ class InputFileRoundTrip(Contract):
             shutil.rmtree(d, ignore_errors=True)
         return None
 
+    def _opted_out(self, case):
+        from geoh5py.ui_json import InputFile, templates
+        from geoh5py.ui_json.constants import default_ui_json
+        from geoh5py.workspace import Workspace
+
+        d = tempfile.mkdtemp()
+        try:
+            with Workspace.create(os.path.join(d, "g.geoh5")) as ws:
+                ui = deepcopy(default_ui_json)
+                ui["geoh5"] = ws
+                sw = templates.bool_parameter(value=True)
+                sw.update({"group": "Filter", "groupOptional": True, "enabled": True})
+                members = {"cutoff": templates.float_parameter(value=2.0, optional="disabled"), "passes": templates.integer_parameter(value=3), "taper": templates.float_parameter(value=0.1, optional="enabled")}
+                for m in members.values():
+                    m["group"] = "Filter"
+                if case["switch_first"]:
+                    ui["switch"] = sw
+                    ui.update(members)
+                else:
+                    ui.update(members)
+                    ui["switch"] = sw
+                ifile = InputFile(ui_json=ui, validation_options=dict(case["options"]) or None)
+                want_enabled = {"switch": True, "cutoff": False, "passes": True, "taper": True}
+                want_data = {"switch": True, "cutoff": None, "passes": 3, "taper": 0.1}
+                out = ifile.write_ui_json(name=case["name"], path=d)
+            try:
+                back = InputFile.read_ui_json(out, validation_options=dict(case["options"]) or None)
+            except Exception as exc:
+                return f"reading back the file that was just written fails: {type(exc).__name__}: {exc} ({case})"
+            try:
+                if case["touch"] == "data-then-flags":
+                    for k, v in want_data.items():
+                        if back.data[k] != v:
+                            return f"'{k}': wrote {v!r}, read back {back.data[k]!r} ({case})"
+                for k, st in want_enabled.items():
+                    got = back.ui_json[k].get("enabled", True)
+                    if bool(got) != st:
+                        return f"enabled state of '{k}': {st} as written, {got} after reading back{' and reading the values' if case['touch'] == 'data-then-flags' else ''} ({case})"
+            finally:
+                if back.geoh5 is not None:
+                    try:
+                        back.geoh5.close()
+                    except Exception:
+                        pass
+        finally:
+            shutil.rmtree(d, ignore_errors=True)
+        return None
+
     def _groups(self, case):
         from geoh5py.objects import Points
         from geoh5py.ui_json import InputFile, templates
@@ -431,6 +484,8 @@ class InputFileRoundTrip(Contract):
             return self._property_groups(case)
         if case.get("kind") == "more-forms":
             return self._more_forms(case)
+        if case.get("kind") == "opted-out-member":
+            return self._opted_out(case)
         from geoh5py.objects import Points
         from geoh5py.ui_json import InputFile, templates
         from geoh5py.ui_json.constants import default_ui_json
@@ -516,7 +571,9 @@ CONTRACTS = [InfRoundTrip, NoneRoundTrip, UuidRoundTrip, InputFileRoundTrip]
 class SetEnabled(Contract):
     """set_enabled(ui_json, parameter, value), written from the ui.json documentation: an optional
     parameter takes the new enabled state; when the parameter is the switch of its group (the first
-    member carrying `groupOptional`) every member of that group takes it; nothing else changes.
+    member carrying `groupOptional`) the members of that group follow: all are switched off with it, and
+    switching it on enables the members without a checkbox of their own (an optional member keeps its
+    own choice); nothing else changes.
     The dictionary has a concrete shape (which members exist) and symbolic member values."""
     target = "geoh5py/ui_json/utils.py::set_enabled"
     props = ("C14",)
@@ -564,7 +621,19 @@ class SetEnabled(Contract):
         for i, (g, o, go, en) in enumerate(shape):
             now = e["ui"].items[f"p{i}"].items.get("enabled")
             takes = (i == target and o) or (tg and switch == target and g)
-            if takes:
+            if takes and i != target and o:
+                # a member with a checkbox of its own: switched off with its group, but an enabled group does not tick it
+                # (corrected from the property: "every member takes it" made an opted-out member read back as enabled)
+                was = e["before"][f"p{i}"]
+                if now is None:
+                    kept, off = z3.BoolVal(was is None), z3.BoolVal(False)
+                elif was is None:
+                    kept, off = z3.BoolVal(False), z3.Not(to_z3(now))
+                else:
+                    kept, off = to_z3(now) == to_z3(was), z3.Not(to_z3(now))
+                ctx.oblige(f"p{i}-is-switched-off-with-its-group-and-keeps-its-own-choice-when-the-group-is-enabled", z3.If(e["value"].e, kept, off),
+                           note=f"optional member p{i} of the group switched by p{target}: enabled={now}")
+            elif takes:
                 ctx.oblige(f"p{i}-takes-the-new-enabled-state", now is not None and to_z3(now) == e["value"].e,
                            note=f"form p{i} should follow the switch p{target} but keeps enabled={now}")
             else:
